@@ -194,12 +194,12 @@ impl HBox {
                     depth,
                     shift_amount,
                     ..
-                }) => [*height - *shift_amount, *width, *depth + *shift_amount],
+                }) => [*width, *height - *shift_amount, *depth + *shift_amount],
                 H::Rule(Rule {
                     height,
                     width,
                     depth,
-                }) => [*height, *width, *depth],
+                }) => [*width, *height, *depth],
                 // The next 3 cases are TeX.2021.655
                 H::Mark(_) | H::Insertion(_) | H::Adjust(_) => {
                     todo!("support more nodes here")
